@@ -11,7 +11,8 @@ RATE="${MTMIRI_PREEMPTION_RATE:-}"   # empty = per-run schedule 0.001 / 0.01 / 0
 ROUNDS="${MTMIRI_ROUNDS:-2}"
 MODE="${MTMIRI_MODE:-c13}"
 rate_of() { # subject seed -> preemption rate of that run
-  if [ -n "$RATE" ]; then echo "$RATE"; else case $(( ($1 + $2) % 3 )) in 0) echo 0.001;; 1) echo 0.01;; *) echo 0.05;; esac; fi
+  if [ -n "$RATE" ]; then echo "$RATE"; elif [ "$MODE" = c15 ]; then case $(( ($1 + $2) % 3 )) in 0) echo 0.02;; 1) echo 0.01;; *) echo 0.05;; esac; # cold-start windows are a few dozen basic blocks wide
+  else case $(( ($1 + $2) % 3 )) in 0) echo 0.001;; 1) echo 0.01;; *) echo 0.05;; esac; fi
 }
 one() { # subject seed [rate] -> prints the program's MICRO-* lines, returns its exit code
   local r="${3:-$(rate_of "$1" "$2")}"
@@ -29,7 +30,7 @@ case "${1:-}" in
   echo "HARNESS-ERROR: miri run gave no verdict"; echo "$out" | tail -20; exit 2;;
  run)
   PROP="${2:?property}"; tier="${3:-quick}"; outj="${4:?out json}"
-  case "$PROP" in C16) MODE=c16; ROUNDS="${MTMIRI_ROUNDS:-1}";; C15) MODE=c15; ROUNDS="${MTMIRI_ROUNDS:-6}";; *) MODE=c13;; esac
+  case "$PROP" in C16) MODE=c16; ROUNDS="${MTMIRI_ROUNDS:-1}";; C15) MODE=c15; ROUNDS="${MTMIRI_ROUNDS:-3}";; *) MODE=c13;; esac
   t0=$(date +%s.%N)
   # build once (also proves the toolchain works); a failure here is a harness error
   n=$(cargo +nightly miri run --offline -q -- count 2>"$HERE/sim/miri-build.log" | tail -1)
@@ -37,47 +38,60 @@ case "${1:-}" in
   base="${VERIF_SEED:-20250917}"
   if [ "$tier" = thorough ]; then nseeds="${MTMIRI_SEEDS:-16}"; else nseeds="${MTMIRI_SEEDS:-1}"; fi
   if [ "$PROP" = C16 ]; then n=$(( n < 10 ? n : 10 )); [ "$tier" = thorough ] || n=6; [ "$tier" = thorough ] && nseeds="${MTMIRI_SEEDS:-8}"; fi
-  if [ "$PROP" = C15 ]; then n=8; [ "$tier" = thorough ] || n=6; [ "$tier" = thorough ] && nseeds="${MTMIRI_SEEDS:-8}"; fi
+  if [ "$PROP" = C15 ]; then n=10; [ "$tier" = thorough ] || n=6; [ "$tier" = thorough ] && nseeds="${MTMIRI_SEEDS:-16}"; fi
   tmp="$(mktemp -d "$HERE/work/micro.XXXXXX")"
   export -f one rate_of; export RATE ROUNDS MODE
   for ((s=0; s<n; s++)); do for ((k=0; k<nseeds; k++)); do echo "$s $(( (base % 100000) * 64 + s * 131 + k ))"; done; done > "$tmp/pairs"
+  # C15 quick: 16 cold starts (4 callers at once: 8 for MT103, 4 for MT101, one for each other subject) and one mixed run per subject
+  if [ "$PROP" = C15 ] && [ "$tier" != thorough ] && [ -z "${MTMIRI_SEEDS:-}" ]; then
+    { for ((s=0; s<n; s++)); do k_max=1; [ $s -eq 0 ] && k_max=8; [ $s -eq 1 ] && k_max=4; for ((k=0; k<k_max; k++)); do echo "$s $(( (base % 100000) * 64 + s * 131 + k )) c15cold 4"; done; done
+      for ((s=0; s<n; s++)); do echo "$s $(( (base % 100000) * 64 + s * 131 + 97 )) c15 $ROUNDS"; done; } > "$tmp/pairs"
+  fi
+  # C13: every subject additionally gets cold starts (4 callers' first validations at once): one in quick, as many as mixed runs in thorough
+  if [ "$PROP" != C15 ] && [ "$PROP" != C16 ]; then
+    awk -v r="$ROUNDS" -v t="$tier" '{print $1, $2, "c13", r; if (t == "thorough" || !seen[$1]++) print $1, $2 + 7919, "c13cold", 4}' "$tmp/pairs" > "$tmp/pairs2" && mv "$tmp/pairs2" "$tmp/pairs"
+  fi
+  # C15 thorough: every subject additionally gets as many cold starts (4 callers at once) as it gets mixed runs
+  if [ "$PROP" = C15 ] && [ "$tier" = thorough ]; then
+    awk -v r="$ROUNDS" '{print $1, $2, "c15", r; print $1, $2 + 7919, "c15cold", 4}' "$tmp/pairs" > "$tmp/pairs2" && mv "$tmp/pairs2" "$tmp/pairs"
+  fi
   # 16 interpreters at a time
-  xargs -P 16 -L 1 bash -c 'out="$(one "$0" "$1")"; rc=$?; echo "$out" | grep -E "^MICRO-" | sed "s/^/seed=$1 rate=$(rate_of "$0" "$1") /" ; if [ $rc -ne 0 ] && ! echo "$out" | grep -q "^MICRO-VIOLATION"; then if echo "$out" | grep -q "unsupported operation"; then echo "seed=$1 MICRO-UNSUPPORTED subject=$0 $(echo "$out" | grep -m1 "unsupported operation" | cut -c1-160)"; else echo "seed=$1 MICRO-ABORT subject=$0 rc=$rc $(echo "$out" | grep -m1 -E "^error" | cut -c1-200)"; fi; fi' < "$tmp/pairs" > "$tmp/out" 2>&1
+  xargs -P 16 -L 1 bash -c 'MODE="${2:-$MODE}"; ROUNDS="${3:-$ROUNDS}"; out="$(one "$0" "$1")"; rc=$?; echo "$out" | grep -E "^MICRO-" | sed "s/^/seed=$1 rate=$(rate_of "$0" "$1") mode=$MODE rounds=$ROUNDS /" ; if [ $rc -ne 0 ] && ! echo "$out" | grep -q "^MICRO-VIOLATION"; then if echo "$out" | grep -q "unsupported operation"; then echo "seed=$1 MICRO-UNSUPPORTED subject=$0 $(echo "$out" | grep -m1 "unsupported operation" | cut -c1-160)"; else echo "seed=$1 MICRO-ABORT subject=$0 rc=$rc $(echo "$out" | grep -m1 -E "^error" | cut -c1-200)"; fi; fi' < "$tmp/pairs" > "$tmp/out" 2>&1
   t1=$(date +%s.%N)
   python3 - "$tmp/out" "$outj" "$n" "$nseeds" "$RATE" "$ROUNDS" "$HERE" "$(echo "$t1 - $t0" | bc)" "$PROP" "$MODE" <<'PY'
 import sys, json, re, os
 out, outj, n, nseeds, rate, rounds, here, wall, prop, mode = sys.argv[1:11]
 ok = skip = 0; viol = []; harness = []; samples = []; bad_runs = set(); unsupported = []; aborted = []
 for l in open(out):
-    m = re.match(r"seed=(\d+) (?:rate=(\S+) )?(MICRO-\w+) subject=(\d+)(.*)", l.strip())
+    m = re.match(r"seed=(\d+) (?:rate=(\S+) )?(?:mode=(\S+) rounds=(\d+) )?(MICRO-\w+) subject=(\d+)(.*)", l.strip())
     if not m: continue
-    seed, run_rate, kind, subj, rest = int(m.group(1)), (m.group(2) or rate), m.group(3), int(m.group(4)), m.group(5).strip()
+    seed, run_rate, run_mode, run_rounds, kind, subj, rest = int(m.group(1)), (m.group(2) or rate), (m.group(3) or mode), int(m.group(4) or rounds), m.group(5), int(m.group(6)), m.group(7).strip()
     if kind == "MICRO-OK":
         ok += 1
         if len(samples) < 3: samples.append({"subject": subj, "miri_seed": seed, "result": rest})
     elif kind == "MICRO-SKIP": skip += 1
-    elif kind == "MICRO-VIOLATION": viol.append((subj, seed, rest, run_rate)); bad_runs.add((subj, seed))
+    elif kind == "MICRO-VIOLATION": viol.append((subj, seed, rest, run_rate, run_mode, run_rounds)); bad_runs.add((subj, seed))
     elif kind == "MICRO-UNSUPPORTED": unsupported.append(l.strip())
     elif kind == "MICRO-ABORT": aborted.append(l.strip())
 reported = {}
-for subj, seed, rest, run_rate in sorted(viol):
+for subj, seed, rest, run_rate, run_mode, run_rounds in sorted(viol):
     mt = re.search(r"mt=([\w+]+)", rest); inv = re.search(r"\b([ITO][0-9])\b", rest)
     seq = "already without any overlap" in rest
     cls = f"{prop}/micro {inv.group(1) if inv else 'I?'} MT{mt.group(1) if mt else '?'} " + ("disagreement on a recorded subject" if seq else "result depends on overlapping calls")
     if cls in reported: reported[cls]["runs"] += 1; continue
     path = os.path.join(here, "replays", f"{prop}-micro-s{subj}-seed{seed}.json")
     os.makedirs(os.path.dirname(path), exist_ok=True)
-    json.dump({"format": "mtmiri-replay-1", "property": prop, "mode": mode, "engine": "micro-schedule", "subject": subj, "seed": seed,
-               "preemption_rate": run_rate, "rounds": int(rounds), "expect_class": cls, "expect_detail": rest}, open(path, "w"), indent=1)
+    json.dump({"format": "mtmiri-replay-1", "property": prop, "mode": run_mode, "engine": "micro-schedule", "subject": subj, "seed": seed,
+               "preemption_rate": run_rate, "rounds": run_rounds, "expect_class": cls, "expect_detail": rest}, open(path, "w"), indent=1)
     reported[cls] = {"class": cls, "detail": rest, "replay": path, "runs": 1}
-total_runs = int(n) * int(nseeds)
+total_runs = sum(1 for _ in open(os.path.join(os.path.dirname(out), "pairs")))
 # a run the interpreter could not finish gives no verdict (the code under test performed an operation Miri does not
 # support in isolation, e.g. read the wall clock, or Miri itself aborted); that is reported, not fatal — unless no
 # run at all got as far as that, which means the stage itself is broken (toolchain, build)
 if ok + len(bad_runs) + skip + len(unsupported) == 0:
     harness.append(f"no micro-schedule run produced a verdict ({len(unsupported)} unsupported, {len(aborted)} aborted): " + " | ".join((unsupported + aborted)[:2]))
 json.dump({"subjects": int(n), "seeds_per_subject": int(nseeds), "interleavings_executed": ok + len(bad_runs), "violating_interleavings": len(bad_runs), "ok": ok, "skipped_subjects_not_parsing": skip, "runs_without_verdict_unsupported_operation": len(unsupported), "runs_without_verdict_interpreter_abort": len(aborted), "no_verdict_samples": (unsupported + aborted)[:3],
-           "preemption_rates": (rate or "0.001 / 0.01 / 0.05 by run"), "rounds_per_caller": int(rounds), "callers": 3, "property": prop, "wall_s": float(wall), "violations": list(reported.values()),
+           "preemption_rates": (rate or ("0.01 / 0.02 / 0.05 by run" if mode == "c15" else "0.001 / 0.01 / 0.05 by run")), "rounds_per_caller": int(rounds), "callers": 3, "property": prop, "wall_s": float(wall), "violations": list(reported.values()),
            "harness_errors": harness[:5], "samples": samples,
            "components": {"real": ["swift-mt-message (parser, validators, field-map tokeniser, finders, sequence splitting), interpreted by Miri"], "stub": ["thread scheduler: Miri's seeded preemptive scheduler", "entropy and clock: Miri's deterministic shims"]}},
           open(outj, "w"), indent=1)
